@@ -375,6 +375,11 @@ class C17(Prop):
         if not (0 <= tok.start <= len(src)):
             res.fail("error-position", f"error-oob:{kind}", f"token.start={tok.start} len={len(src)}; src={src!r}")
             return
+        stop = getattr(tok, "stop", None)
+        if isinstance(stop, int) and not (tok.start <= stop <= len(src)):
+            res.fail("error-position", f"error-stop-oob:{type(tok).__name__}",
+                     f"token span [{tok.start}:{stop}] does not lie inside the source (len={len(src)}); src={src!r}")
+            return
         try:
             ctx = err.context()
             err.detailed_message()
